@@ -326,18 +326,20 @@ def _between_impl(
         ExpressionClauseList._construct_for_list(
             operators.and_,
             type_api.NULLTYPE,
+            # the AND here is part of the BETWEEN syntax; a bound that is
+            # itself a comparison, e.g. "a = 5", needs parenthesis
             coercions.expect(
                 roles.BinaryElementRole,
                 cleft,
                 expr=expr,
                 operator=operators.and_,
-            ),
+            ).self_group(against=op),
             coercions.expect(
                 roles.BinaryElementRole,
                 cright,
                 expr=expr,
                 operator=operators.and_,
-            ),
+            ).self_group(against=op),
             group=False,
         ),
         op,
